@@ -97,6 +97,9 @@ func TestSweep(t *testing.T) {
 								continue
 							}
 							Oracle.One(t, env, rec, "sweep", &Case{Entry: "put", S: tn, C1: c1, C2: c2, F1: lk[1], L: lk[0], PutKind: pk, PrePut: pre})
+							if pre && lk[0] == 0 {
+								Oracle.One(t, env, rec, "sweep", &Case{Entry: "put", S: tn, C1: c1, C2: c2, F1: lk[1], L: lk[0], PutKind: pk, Many: 20 + 15*c1})
+							}
 						}
 					}
 				}
